@@ -623,6 +623,9 @@ def _underscore_free(fnode, a, call):
     if isinstance(a, ast.Name):
         defs = [st for st in ast.walk(fnode) if isinstance(st, ast.Assign) and any(isinstance(t, ast.Name) and t.id == a.id for t in st.targets)]
         before = [st for st in defs if st.lineno < call.lineno]
+        # `if isinstance(x, float): x = repr(x)`: the text of a number has no underscores
+        before = [st for st in before if not (isinstance(st.value, ast.Call) and isinstance(st.value.func, ast.Name) and st.value.func.id in ('repr', 'str')
+                                              and _under_text_guard(fnode, st, a.id))]
         if before and all(_strips_underscores(st.value) for st in before) and all(st in fnode.body or _under_text_guard(fnode, st, a.id) for st in before):
             return True
     return False
